@@ -356,3 +356,63 @@ func setProcs(n int) func() {
 	old := runtime.GOMAXPROCS(n)
 	return func() { runtime.GOMAXPROCS(old) }
 }
+
+// overflowBurst queues more notifications than the kernel queue holds in the
+// watched directory dir (nobody has to be receiving): an error is then pending
+// behind the queued events.
+func overflowBurst(dir string, extra int) {
+	n := engine.MaxQueuedEvents() + extra
+	a, b := dir+"/ovf-a", dir+"/ovf-b"
+	for _, p := range []string{a, b} {
+		if fd, err := syscall.Open(p, syscall.O_CREAT|syscall.O_WRONLY|syscall.O_CLOEXEC, 0o644); err == nil {
+			syscall.Close(fd)
+		}
+	}
+	// alternating attribute changes: one notification each, never merged
+	for i := 0; i < n; i++ {
+		if i%2 == 0 {
+			syscall.Chmod(a, 0o600+uint32(i/2%2)*0o44)
+		} else {
+			syscall.Chmod(b, 0o600+uint32(i/2%2)*0o44)
+		}
+	}
+}
+
+// genOverflow decides whether a case leaves a kernel queue overflow (and so an
+// error) pending; such cases cost ~0.4 s, so they are drawn rarely.
+func genOverflow(t *rapid.T, c *LCase) {
+	pct := 2
+	if os.Getenv("VERIF_TIER") == "thorough" {
+		pct = 8
+	}
+	if rapid.IntRange(0, 99).Draw(t, "overflow") >= pct {
+		return
+	}
+	c.Overflow = rapid.IntRange(1, 3000).Draw(t, "overflow-extra")
+	has := false
+	for _, a := range c.Adds {
+		if a == "d0" {
+			has = true
+		}
+	}
+	if !has {
+		c.Adds = append(c.Adds, "d0")
+	}
+	// let the reader reach the overflow marker: somebody takes the events,
+	// mostly nobody takes the error
+	c.Consumer = rapid.SampledFrom([]string{"events", "events", "events", "both", "none"}).Draw(t, "ovf-consumer")
+}
+
+// waitParkedInSendError waits (bounded, best effort) until the reader goroutine
+// is parked sending an error: the state "an error is waiting to be delivered".
+func waitParkedInSendError() {
+	deadline := time.Now().Add(5 * time.Second)
+	for time.Now().Before(deadline) {
+		for _, g := range engine.FsnotifyGoroutines() {
+			if strings.Contains(g, "sendError") {
+				return
+			}
+		}
+		time.Sleep(2 * time.Millisecond)
+	}
+}
